@@ -120,7 +120,16 @@ func Execute(t *testing.T, sc *Scenario, prefix []Choice) *Result {
 				c.Panics = append(c.Panics, fmt.Sprintf("%v\n%s", v, debug.Stack()))
 				c.mu.Unlock()
 			}
-			out := sc.Run(c)
+			var out *Outcome
+			func() {
+				defer func() {
+					if r := recover(); r != nil {
+						// a panic on the controller's own goroutine is a harness bug, never a verdict
+						c.fail("panic in scenario body: %v\n%s", r, debug.Stack())
+					}
+				}()
+				out = sc.Run(c)
+			}()
 			c.ReleaseAll()
 			res.Outcome = out
 			res.Choices, res.Points, res.Costs = c.Choices, c.Points, c.Costs
@@ -420,6 +429,8 @@ type Explorer struct {
 	MaxEnabled int
 	Scenarios  []map[string]interface{}
 	wseq       int
+	pmu        sync.Mutex
+	idle       []*worker
 }
 
 func NewExplorer(c *ev.Check) *Explorer {
@@ -434,10 +445,13 @@ func NewExplorer(c *ev.Check) *Explorer {
 }
 
 func (e *Explorer) spawn() (*worker, error) {
+	e.pmu.Lock()
 	e.wseq++
+	seq := e.wseq
+	e.pmu.Unlock()
 	dir := ev.Root() + "/.build/scratch"
 	os.MkdirAll(dir, 0o755)
-	scratch := fmt.Sprintf("%s/%d-%d.json", dir, os.Getpid(), e.wseq)
+	scratch := fmt.Sprintf("%s/%d-%d.json", dir, os.Getpid(), seq)
 	cmd := exec.Command(os.Args[0], "-test.run", "^TestWorker$", "-test.timeout", "0")
 	cmd.Env = append(os.Environ(), "VERIF_WORKER=1", "VERIF_SCRATCH="+scratch, "GOMAXPROCS=2")
 	stdin, err := cmd.StdinPipe()
@@ -500,17 +514,96 @@ func (e *Explorer) runBound(scenario string, bound int) bool {
 	if bound <= 1 {
 		twice = 25
 	}
+	nw := e.Workers
+	if split == 0 {
+		nw = 1
+	}
+	return e.runTasks([]Task{{Scenario: scenario, Bound: bound, Split: split, Twice: twice, Deadline: dl}}, nw)
+}
+
+// ExploreMany explores many (small) scenarios to one bound, each wholly inside one worker, all
+// workers busy: used for bounded-exhaustive enumeration of inputs through the default schedule
+// (bound 0) or with a few deviations.
+func (e *Explorer) ExploreMany(scenarios []string, bound int, twice int) (done int, exhaustive bool) {
+	var dl int64
+	if !e.Deadline.IsZero() {
+		dl = e.Deadline.Unix()
+	}
+	t0 := time.Now()
+	n0 := e.Execs
+	const chunk = 4096
+	exhaustive = true
+	for i := 0; i < len(scenarios); i += chunk {
+		if !e.Deadline.IsZero() && time.Now().After(e.Deadline) {
+			exhaustive = false
+			break
+		}
+		j := i + chunk
+		if j > len(scenarios) {
+			j = len(scenarios)
+		}
+		tasks := make([]Task, 0, j-i)
+		for k := j - 1; k >= i; k-- { // the queue is a stack: keep enumeration order
+			tasks = append(tasks, Task{Scenario: scenarios[k], Bound: bound, Twice: twice, Deadline: dl})
+		}
+		if !e.runTasks(tasks, e.Workers) {
+			exhaustive = false
+			break
+		}
+		done = j
+	}
+	e.Scenarios = append(e.Scenarios, map[string]interface{}{"family_size": len(scenarios), "family_done": done, "bound": bound,
+		"executions": e.Execs - n0, "wall_s": time.Since(t0).Seconds(), "first": scenarios[0], "last": scenarios[len(scenarios)-1]})
+	fmt.Printf("  family of %d scenarios (first %s): %d completed at bound %d, %d executions, %.1fs\n", len(scenarios), scenarios[0], done, bound, e.Execs-n0, time.Since(t0).Seconds())
+	return done, exhaustive
+}
+
+func (e *Explorer) getWorker() (*worker, error) {
+	e.pmu.Lock()
+	if n := len(e.idle); n > 0 {
+		w := e.idle[n-1]
+		e.idle = e.idle[:n-1]
+		e.pmu.Unlock()
+		return w, nil
+	}
+	e.pmu.Unlock()
+	return e.spawn()
+}
+
+func (e *Explorer) putWorker(w *worker) {
+	e.pmu.Lock()
+	e.idle = append(e.idle, w)
+	e.pmu.Unlock()
+}
+
+func (w *worker) kill() {
+	w.in.Flush()
+	w.cmd.Process.Kill()
+	w.cmd.Wait()
+	os.Remove(w.scratch)
+}
+
+// Close stops the worker processes.
+func (e *Explorer) Close() {
+	e.pmu.Lock()
+	defer e.pmu.Unlock()
+	for _, w := range e.idle {
+		w.kill()
+	}
+	e.idle = nil
+}
+
+func (e *Explorer) runTasks(initial []Task, nw int) bool {
 	var mu sync.Mutex
 	cond := sync.NewCond(&mu)
-	queue := []Task{{Scenario: scenario, Bound: bound, Split: split, Twice: twice, Deadline: dl}}
+	queue := initial
 	inflight := 0
 	nextID := 0
 	cut := false
 	failed := false
 	var wg sync.WaitGroup
-	nw := e.Workers
-	if split == 0 {
-		nw = 1
+	if nw > len(initial) && len(initial) > 1 {
+		nw = len(initial)
 	}
 	for i := 0; i < nw; i++ {
 		wg.Add(1)
@@ -519,10 +612,7 @@ func (e *Explorer) runBound(scenario string, bound int) bool {
 			var w *worker
 			defer func() {
 				if w != nil {
-					w.in.Flush()
-					w.cmd.Process.Kill()
-					w.cmd.Wait()
-					os.Remove(w.scratch)
+					e.putWorker(w)
 				}
 			}()
 			for {
@@ -545,7 +635,7 @@ func (e *Explorer) runBound(scenario string, bound int) bool {
 				var rep Reply
 				var err error
 				if w == nil {
-					w, err = e.spawn()
+					w, err = e.getWorker()
 				}
 				if err == nil {
 					b, _ := json.Marshal(task)
@@ -562,22 +652,32 @@ func (e *Explorer) runBound(scenario string, bound int) bool {
 				mu.Lock()
 				inflight--
 				if err != nil {
-					// the worker died: the scratch file names the execution it was running
-					culprit, _ := os.ReadFile(w.scratch)
-					w.cmd.Process.Kill()
-					werr := w.cmd.Wait()
-					os.Remove(w.scratch)
-					w = nil
-					var rp Replay
-					if json.Unmarshal(culprit, &rp) == nil && rp.Scenario != "" {
-						v := ev.Violation{Signature: "worker-died", Check: scenario, Replay: rp,
-							Message: fmt.Sprintf("the process executing this schedule died (%v): unrecovered panic, fatal runtime error or watchdog", werr)}
-						if e.Accept == nil || e.Accept(v) {
-							e.Check.Report(v)
-						}
-					} else {
-						e.Check.EngineError(fmt.Sprintf("worker died without culprit: %v / %v", err, werr))
+					if w == nil {
+						e.Check.EngineError(fmt.Sprintf("cannot start worker: %v", err))
 						failed = true
+					} else {
+						// the worker died: the scratch file names the execution it was running
+						culprit, _ := os.ReadFile(w.scratch)
+						w.cmd.Process.Kill()
+						werr := w.cmd.Wait()
+						os.Remove(w.scratch)
+						w = nil
+						var rp Replay
+						if ee, ok := werr.(*exec.ExitError); ok && ee.ExitCode() == 4 {
+							// the worker's own watchdog: an execution made no progress for 120 s of wall time;
+							// that is a harness problem until proven otherwise, never a verdict
+							e.Check.EngineError(fmt.Sprintf("execution hung (worker watchdog): %s", culprit))
+							failed = true
+						} else if json.Unmarshal(culprit, &rp) == nil && rp.Scenario != "" {
+							v := ev.Violation{Property: e.Check.Property, Signature: "worker-died", Check: task.Scenario, Replay: rp,
+								Message: fmt.Sprintf("the process executing this schedule died (%v): unrecovered panic, fatal runtime error or watchdog", werr)}
+							if e.Accept == nil || e.Accept(v) {
+								e.Check.Report(v)
+							}
+						} else {
+							e.Check.EngineError(fmt.Sprintf("worker died without culprit: %v / %v", err, werr))
+							failed = true
+						}
 					}
 				} else {
 					e.merge(&rep)
@@ -633,7 +733,7 @@ func (e *Explorer) merge(rep *Reply) {
 			e.stats["other-property-violations:"+v.Property+":"+v.Signature]++
 			continue
 		}
-		key := v.Property + "|" + v.Signature + "|" + v.Check
+		key := v.Property + "|" + v.Signature // one artefact per defect class; the others are counted
 		e.stats["violating-executions:"+v.Property+":"+v.Signature]++
 		if e.seenSig[key] {
 			continue
@@ -714,6 +814,14 @@ func ReplayFile(t *testing.T, path string) int {
 	r := Execute(t, sc, v.Replay.Choices)
 	if r.EngineErr != "" {
 		fmt.Println("ENGINE-ERROR", r.EngineErr)
+		for i, c := range r.Choices {
+			if i < 60 {
+				fmt.Printf("  %2d %s\n", i, c.L)
+			}
+		}
+		if r.Outcome != nil {
+			fmt.Printf("observation: %s\ndetail:\n%s\n", r.Outcome.Obs, r.Outcome.Detail)
+		}
 		return 3
 	}
 	fmt.Printf("scenario %s\n", sc.Name)
